@@ -35,12 +35,22 @@ type CV struct {
 // 3 MyInt (named int), 4 *S0, 5 *S1. Payload p = 0 is the zero value of the type.
 // Types with a concat function registered by this harness (user.go): 6 Acc, 7 Lim.
 // 8 []string (p = 0 nil, p = 1 empty but not nil, p > 1 p-1 elements; a slice is the zero Value iff nil).
+// 11 **S0, 12 Emb, 13 [2]int (see below).
 // 10 the twin of S0 (see below). 9 Num (user.go): an INTERFACE type with a function registered for the interface type; p = Val(),
 // S = "A" NumA(p), "B" NumB{p}, "" the nil Num (p = 0). Only used as the static chunk type of a stream.
 type S0 struct{ A int }
 type S1 struct{ B int }
 type MyStr string
 type MyInt int
+
+// 11 **S0: pointer depth 2 (p = 0 the nil **S0; p = ptrToZero a NON-NIL pointer to the nil *S0 - a non-zero value;
+// else a pointer to a pointer to S0{A: p}).  12 Emb: a struct that EMBEDS S0 (and so has its method Tag()).
+// 13 [2]int: an array type (zero iff every element is).
+type Emb struct {
+	S0
+	Note string
+}
+type Arr2 = [2]int
 
 // Tagged: a non-empty interface type WITHOUT a registered function, implemented by S0 and *S0:
 // a stream of Tagged is concatenated by dynamic type exactly like a stream of any.
@@ -51,7 +61,7 @@ func (s S0) Tag() int { return s.A }
 // MyMap: a NAMED map type (MT 4): concatMaps must build the result with the chunk type itself
 type MyMap map[string]string
 
-const nOtherTags = 11
+const nOtherTags = 14
 
 // ptrToZero: the payload of a pointer chunk (tags 4, 5) that is a NON-NIL pointer to the zero struct (&S0{}): a
 // non-zero value for reflect's IsZero (only the nil pointer, payload 0, is the zero value of a pointer type)
@@ -75,6 +85,22 @@ func init() {
 
 func otherToGo(tag, p int, variant string) any {
 	switch tag {
+	case 11:
+		if p == 0 {
+			return (**S0)(nil)
+		}
+		var inner *S0
+		if p != ptrToZero {
+			inner = &S0{A: p}
+		}
+		return &inner
+	case 12:
+		if p == 0 {
+			return Emb{}
+		}
+		return Emb{S0: S0{A: p}, Note: "n"}
+	case 13:
+		return Arr2{0, p}
 	case 10:
 		return mkTwin(p)
 	case 9:
@@ -255,6 +281,24 @@ func fromGo(x any) *CV {
 			return &CV{K: "other", Tag: 5, P: ptrToZero}
 		}
 		return &CV{K: "other", Tag: 5, P: t.B}
+	case **S0:
+		switch {
+		case t == nil:
+			return &CV{K: "other", Tag: 11, P: 0}
+		case *t == nil:
+			return &CV{K: "other", Tag: 11, P: ptrToZero}
+		}
+		return &CV{K: "other", Tag: 11, P: (*t).A}
+	case Emb:
+		if t.S0.A == 0 && t.Note != "" {
+			return &CV{K: "other", Tag: 12, P: -1}
+		}
+		return &CV{K: "other", Tag: 12, P: t.S0.A}
+	case Arr2:
+		if t[0] != 0 {
+			return &CV{K: "other", Tag: 13, P: -1}
+		}
+		return &CV{K: "other", Tag: 13, P: t[1]}
 	case Acc:
 		return &CV{K: "other", Tag: 6, P: t.N}
 	case Lim:
@@ -352,6 +396,9 @@ type Case struct {
 	// generic / msg (without read error): also concatenate the chunk list Conc times on two goroutines while
 	// three others concatenate chunk lists of other types (conc.go)
 	Conc int `json:"conc,omitempty"`
+	// generic / msg (without read error): also run the chunk list as one of the FIRST concatenations of Cold fresh
+	// processes, at the same time as other first concatenations (cold.go)
+	Cold int `json:"cold,omitempty"`
 }
 
 // coqItems: what the reader delivers as a list of sitem (Model/ConcatStream.v)
@@ -549,6 +596,12 @@ func concatVals(chunks []*CV, vals []any, errAt int) (o Obs) {
 			out, err = concatTyped[*S0](vals, errAt)
 		case *S1:
 			out, err = concatTyped[*S1](vals, errAt)
+		case **S0:
+			out, err = concatTyped[**S0](vals, errAt)
+		case Emb:
+			out, err = concatTyped[Emb](vals, errAt)
+		case Arr2:
+			out, err = concatTyped[Arr2](vals, errAt)
 		case Acc:
 			out, err = concatTyped[Acc](vals, errAt)
 		case Lim:
@@ -597,6 +650,9 @@ func concatViaChain[T any](chunks []*CV, errAt int) (o Obs) {
 		ctx := context.Background()
 		ch := compose.NewChain[string, T]()
 		ch.AppendLambda(compose.StreamableLambda(func(ctx context.Context, in string) (*schema.StreamReader[T], error) {
+			if in == "tail" {
+				return streamOf(items[1:], -1), nil
+			}
 			return streamOf(items, errAt), nil
 		}))
 		r, cerr := ch.Compile(ctx)
@@ -604,6 +660,38 @@ func concatViaChain[T any](chunks []*CV, errAt int) (o Obs) {
 			panic("harness: chain does not compile: " + cerr.Error())
 		}
 		out, err = r.Invoke(ctx, "")
+		// a second call on the SAME compiled object with ANOTHER chunk list (the first chunk dropped): what the
+		// stream-level entry point gives for that list, whatever the object converted before
+		if len(items) >= 2 && errAt < 0 && secondCall == "" {
+			want, werr := compose.VerifConcatStreamReader(streamOf(items[1:], -1))
+			if werr != nil || any(want) != nil { // a nil value as a node's whole output is the graph engine's business
+				got, gerr := r.Invoke(ctx, "tail")
+				if w, g := renderCall(any(want), werr), renderCall(any(got), gerr); w != g {
+					secondCall = fmt.Sprintf("chain.Invoke: the second call on the same compiled chain, made with the chunk list without its first chunk, gives %s; concatStreamReader gives %s for that list", g, w)
+				}
+			}
+		}
+		// the other conversion site of the engine: the stream feeds an invoke-only successor node while the chain
+		// is called with Stream (the graph converts the node input with the chunk type's concatStream)
+		if errAt < 0 && secondCall == "" && (err != nil || any(out) != nil) {
+			ch2 := compose.NewChain[string, T]()
+			ch2.AppendLambda(compose.StreamableLambda(func(ctx context.Context, in string) (*schema.StreamReader[T], error) {
+				return streamOf(items, -1), nil
+			}))
+			ch2.AppendLambda(compose.InvokableLambda(func(ctx context.Context, in T) (T, error) { return in, nil }))
+			r2, cerr := ch2.Compile(ctx)
+			if cerr != nil {
+				panic("harness: chain does not compile: " + cerr.Error())
+			}
+			var got T
+			sr, gerr := r2.Stream(ctx, "")
+			if gerr == nil {
+				got, gerr = compose.VerifConcatStreamReader(sr)
+			}
+			if w, g := renderCall(any(out), err), renderCall(any(got), gerr); w != g {
+				secondCall = fmt.Sprintf("the chunk list converted for an invoke-only successor node (chain called with Stream) gives %s; chain.Invoke on the streaming node alone gives %s", g, w)
+			}
+		}
 	})
 	if p != nil {
 		return Obs{Class: "panic", Msg: fmt.Sprint(p)}
@@ -616,6 +704,20 @@ func concatViaChain[T any](chunks []*CV, errAt int) (o Obs) {
 		o = renderNum(o)
 	}
 	return o
+}
+
+// secondCall: set by the chain entry points when a second call on the same compiled object did not give what it
+// must: chain.Invoke called again with the chunk list WITHOUT its first chunk must give what concatStreamReader
+// gives for that list (nothing of the first conversion may survive in the compiled object); the fan-in called
+// again on the same chunks must give the same map (class and value; error texts are not compared).  Run resets and
+// reads it.  Only written on the goroutine that runs the case.
+var secondCall string
+
+func renderCall(out any, err error) string {
+	if err != nil {
+		return "an error"
+	}
+	return "the value " + js(normalize(fromGo(out)))
 }
 
 func (o Obs) coq() string {
@@ -656,7 +758,8 @@ func normalize(v *CV) *CV {
 
 // ---------------------------------------------------------------- generator
 
-var keyPool = []string{"a", "b", "c", "k1", "k2"}
+// (the empty string is a legal map key; it comes last: the fan-in generator names graph nodes after the first three)
+var keyPool = []string{"a", "b", "c", "k1", "k2", ""}
 var strPool = []string{"", "x", "yz", "hello ", "W", "", "0"}
 
 // type descriptors of the values that may sit under a map key
@@ -681,6 +784,9 @@ const (
 	tdMapIK  // map[int]string
 	tdMyMap  // MyMap
 	tdS0Twin // the twin of S0 (same printed name, different type)
+	tdPPS0   // **S0
+	tdEmb    // Emb (embeds S0)
+	tdArr    // [2]int
 	tdNil
 	nTD
 	tdNum = nTD // the interface type Num: only as the static chunk type of a stream
@@ -688,10 +794,10 @@ const (
 
 // same reflect.Kind, different Go type
 var sibling = map[int]int{tdStr: tdMyStr, tdMyStr: tdStr, tdInt: tdMyInt, tdMyInt: tdInt, tdS0: tdS0Twin, tdS0Twin: tdS0, tdS1: tdAcc,
-	tdPS0: tdPS1, tdPS1: tdPS0, tdMapAny: tdMapStr, tdMapStr: tdMyMap, tdMyMap: tdMapInt, tdMapInt: tdMapIK, tdMapIK: tdMapAny, tdAcc: tdLim, tdLim: tdS0}
+	tdPS0: tdPS1, tdPS1: tdPS0, tdMapAny: tdMapStr, tdMapStr: tdMyMap, tdMyMap: tdMapInt, tdMapInt: tdMapIK, tdMapIK: tdMapAny, tdAcc: tdLim, tdLim: tdS0, tdPPS0: tdPS0, tdEmb: tdS0}
 
 var tdNames = []string{"string", "int", "int64", "bool", "float64", "S0", "S1", "MyStr", "MyInt", "*S0", "*S1", "Acc", "Lim", "[]string",
-	"map[string]any", "map[string]string", "map[string]int", "map[int]string", "MyMap", "S0(twin)", "nil", "Num"}
+	"map[string]any", "map[string]string", "map[string]int", "map[int]string", "MyMap", "S0(twin)", "**S0", "Emb", "[2]int", "nil", "Num"}
 
 func genVal(r *lib.Rng, td, depth int) *CV {
 	payload := []int{0, 0, 1, 2}[r.Intn(4)]
@@ -702,11 +808,11 @@ func genVal(r *lib.Rng, td, depth int) *CV {
 		return &CV{K: "num", Kind: map[int]int{tdInt: 0, tdInt64: 1, tdFloat: 3}[td], Z: int64(r.Range(-2, 3))}
 	case tdBool:
 		return &CV{K: "num", Kind: 2, Z: int64(r.Intn(2))}
-	case tdS0, tdS1, tdMyStr, tdMyInt, tdPS0, tdPS1, tdS0Twin:
-		if (td == tdPS0 || td == tdPS1) && payload == 2 {
+	case tdS0, tdS1, tdMyStr, tdMyInt, tdPS0, tdPS1, tdS0Twin, tdPPS0, tdEmb, tdArr:
+		if (td == tdPS0 || td == tdPS1 || td == tdPPS0) && payload == 2 {
 			payload = ptrToZero
 		}
-		return &CV{K: "other", Tag: map[int]int{tdS0: 0, tdS1: 1, tdMyStr: 2, tdMyInt: 3, tdPS0: 4, tdPS1: 5, tdS0Twin: 10}[td], P: payload}
+		return &CV{K: "other", Tag: map[int]int{tdS0: 0, tdS1: 1, tdMyStr: 2, tdMyInt: 3, tdPS0: 4, tdPS1: 5, tdS0Twin: 10, tdPPS0: 11, tdEmb: 12, tdArr: 13}[td], P: payload}
 	case tdStrSlice:
 		return &CV{K: "other", Tag: 8, P: []int{0, 0, 1, 2, 3}[r.Intn(5)]}
 	case tdAcc, tdLim:
@@ -840,6 +946,41 @@ func genGeneric(r *lib.Rng, tier string) *Case {
 		c.Tagged = taggedOK(c.Chunks) && r.Chance(2, 3)
 		return c
 	}
+	if r.Chance(1, 25) {
+		// a stream as long as real ones (dozens to hundreds of small chunks): strings, or maps with type-stable keys
+		n = r.Range(33, 120)
+		if tier == "thorough" {
+			n = r.Range(33, 200)
+		}
+		long := r.Intn(3)
+		for i := 0; i < n; i++ {
+			switch long {
+			case 0:
+				c.Chunks = append(c.Chunks, genVal(r, tdStr, 0))
+			case 1:
+				c.Chunks = append(c.Chunks, genVal(r, tdAcc, 0))
+			default:
+				m := map[string]*CV{}
+				if r.Chance(2, 3) {
+					m["t"] = genVal(r, tdStr, 0)
+				}
+				if r.Chance(1, 3) {
+					m["n"] = genVal(r, tdInt64, 0)
+				}
+				if r.Chance(1, 3) {
+					m["a"] = genVal(r, tdAcc, 0)
+				}
+				if r.Chance(1, 6) {
+					m["m"] = &CV{K: "map", MT: 1, M: map[string]*CV{"k1": genVal(r, tdStr, 0)}}
+				}
+				if r.Chance(1, 10) {
+					m["z"] = &CV{K: "nil"}
+				}
+				c.Chunks = append(c.Chunks, &CV{K: "map", M: m})
+			}
+		}
+		return c
+	}
 	for i := 0; i < n; i++ {
 		if top == tdMapAny {
 			c.Chunks = append(c.Chunks, genMap(r, depth, keyTypes))
@@ -875,6 +1016,9 @@ func (engine) Generate(r *lib.Rng, tier string, i int) any {
 	if (c.Kind == "generic" || c.Kind == "msg") && c.ErrAt == nil && r.Chance(1, concOneIn) {
 		c.Conc = concRounds
 	}
+	if (c.Kind == "generic" || c.Kind == "msg") && c.ErrAt == nil && r.Chance(1, coldOneIn) {
+		c.Cold = coldProcs
+	}
 	return c
 }
 
@@ -886,7 +1030,17 @@ func (engine) Decode(raw json.RawMessage) (any, error) {
 	return &c, nil
 }
 
-func (engine) Run(ci any) lib.Result {
+func (e engine) Run(ci any) lib.Result {
+	secondCall = ""
+	res := e.run(ci)
+	if secondCall != "" && res.Oracle == "" {
+		res.Oracle = secondCall
+		res.Sig = "second-call-differs"
+	}
+	return res
+}
+
+func (engine) run(ci any) lib.Result {
 	c := ci.(*Case)
 	if c.Kind != "generic" {
 		return runMsg(c)
@@ -996,11 +1150,8 @@ func (engine) Run(ci any) lib.Result {
 		}
 		// re-chunking: concatenate any segment [i,j) first, splice the result in, concatenate again
 		n := len(c.Chunks)
-		for i := 0; i < n && res.Oracle == ""; i++ {
-			for j := i + 1; j <= n && res.Oracle == ""; j++ {
-				if i == 0 && j == n {
-					continue
-				}
+		for _, sg := range segmentsOf(n) {
+			if i, j := sg[0], sg[1]; res.Oracle == "" {
 				sig := "generic-rechunk"
 				if i > 0 {
 					sig = "generic-rechunk-mid"
@@ -1030,9 +1181,22 @@ func (engine) Run(ci any) lib.Result {
 	if c.Conc > 0 {
 		res.Tags = append(res.Tags, "feat:concurrent")
 		if res.Oracle == "" {
-			if why := concurrentPhase(c, func() string { return concatPure(c, c.Chunks) }); why != "" {
+			if why := concurrentPhase(c, concatSharedVals(c)); why != "" {
 				res.Oracle = why
 				res.Sig = "concurrent-nondet"
+			}
+		}
+	}
+	if c.Cold > 0 {
+		res.Tags = append(res.Tags, "feat:cold-start")
+		if res.Oracle == "" {
+			why, lost := coldPhase(c, func() string { return concatPure(c, c.Chunks) })
+			if why != "" {
+				res.Oracle = why
+				res.Sig = "cold-start-nondet"
+			}
+			if lost > 0 {
+				res.Tags = append(res.Tags, "cold:child-lost")
 			}
 		}
 	}
@@ -1106,7 +1270,7 @@ func goTypeName(v *CV) string {
 	case "num":
 		return []string{"int", "int64", "bool", "float64"}[v.Kind]
 	case "other":
-		return []string{"S0", "S1", "MyStr", "MyInt", "*S0", "*S1", "Acc", "Lim", "[]string", "Num", "S0(twin)"}[v.Tag]
+		return []string{"S0", "S1", "MyStr", "MyInt", "*S0", "*S1", "Acc", "Lim", "[]string", "Num", "S0(twin)", "**S0", "Emb", "[2]int"}[v.Tag]
 	case "map":
 		if v.MT == 1 {
 			return "map[string]string"
@@ -1126,7 +1290,7 @@ func goTypeName(v *CV) string {
 }
 
 var kindOf = map[string]string{"string": "string", "MyStr": "string", "int": "int", "MyInt": "int", "S0": "struct", "S1": "struct",
-	"*S0": "ptr", "*S1": "ptr", "S0(twin)": "struct", "Acc": "struct", "Lim": "struct", "[]string": "slice", "map[string]any": "map", "map[string]string": "map", "map[string]int": "map", "map[int]string": "map", "MyMap": "map", "Num": "interface", "int64": "int64", "bool": "bool", "float64": "float64"}
+	"*S0": "ptr", "*S1": "ptr", "**S0": "ptr", "Emb": "struct", "[2]int": "array", "S0(twin)": "struct", "Acc": "struct", "Lim": "struct", "[]string": "slice", "map[string]any": "map", "map[string]string": "map", "map[string]int": "map", "map[int]string": "map", "MyMap": "map", "Num": "interface", "int64": "int64", "bool": "bool", "float64": "float64"}
 
 // clashTags reports whether some key (at any depth, following the first map per key) holds
 // values of different Go types, and whether two of them share a reflect.Kind.
@@ -1322,6 +1486,41 @@ func nonzeroSpec(c *Case, o Obs) string {
 	return ""
 }
 
+// segmentsOf: the segments [i,j) of a list of n chunks the re-chunking oracle concatenates first: every proper segment
+// of a list of up to 16 chunks; of a longer list the segments that start at the ends, the middle and around the powers
+// of two (15..17, 31..33, 63..65, 127..129) and are 1, 2, 16, 33, 64 chunks, half the list or the rest long (~90)
+func segmentsOf(n int) [][2]int {
+	var out [][2]int
+	if n <= 16 {
+		for i := 0; i < n; i++ {
+			for j := i + 1; j <= n; j++ {
+				if !(i == 0 && j == n) {
+					out = append(out, [2]int{i, j})
+				}
+			}
+		}
+		return out
+	}
+	marks := []int{0, 1, 15, 16, 17, 31, 32, 33, 63, 64, 65, 127, 128, 129, n / 2, n - 2, n - 1}
+	lens := []int{1, 2, 16, 33, 64, n / 2, n}
+	seen := map[[2]int]bool{}
+	for _, i := range marks {
+		for _, l := range lens {
+			j := i + l
+			if j > n {
+				j = n
+			}
+			sg := [2]int{i, j}
+			if i < 0 || i >= n || j <= i || (i == 0 && j == n) || seen[sg] {
+				continue
+			}
+			seen[sg] = true
+			out = append(out, sg)
+		}
+	}
+	return out
+}
+
 // hasCV: some value (at any depth) satisfies p
 func hasCV(vs []*CV, p func(*CV) bool) bool {
 	for _, v := range vs {
@@ -1350,4 +1549,9 @@ func mapCoq(vs []*CV) []string {
 
 func js(x any) string { b, _ := json.Marshal(x); return string(b) }
 
-func main() { lib.Main(engine{}) }
+func main() {
+	if coldChildMain() {
+		return
+	}
+	lib.Main(engine{})
+}
